@@ -8,6 +8,7 @@ import (
 	"go/token"
 	"go/types"
 	"os"
+	"regexp"
 	"sort"
 	"strings"
 
@@ -1066,8 +1067,10 @@ func rulesSiblingRecurrence(c *Ctx, r *Report, zeroGapOpen bool) {
 			onlyG = append(onlyG, s)
 		}
 	}
+	// the zero clamp written field by field (in a helper that is handed the cell): `[… score < 0] blocks[i].fK = 0`
+	zeroClampField := regexp.MustCompile(`^\[.*\(load\(blocks\[[^\]]*\]\.f0\) < 0\).*\] blocks\[[^\]]*\]\.f[01] = 0$`)
 	for _, s := range lst {
-		if !gset[s] && !strings.Contains(s, "= composite{f0:0,f1:0}") {
+		if !gset[s] && !strings.Contains(s, "= composite{f0:0,f1:0}") && !zeroClampField.MatchString(s) {
 			onlyL = append(onlyL, s)
 		}
 	}
@@ -1128,6 +1131,7 @@ func (a *alignFn) edgeRule(c *Ctx, r *Report) {
 		label   int64
 		classes []string
 		pos     token.Pos
+		nonZero bool // some store of the group is not a constant zero (a group of zeros only is the clamp, not an edge)
 	}
 	groups := map[any]*grp{}
 	var order []any
@@ -1145,6 +1149,9 @@ func (a *alignFn) edgeRule(c *Ctx, r *Report) {
 			g = &grp{label: -1}
 			groups[key] = g
 			order = append(order, key)
+		}
+		if k, ok := cFloat(constVal(ss.val.Val)); !(ss.val.Op == "const" && ok && k == 0) {
+			g.nonZero = true
 		}
 		switch ad.Leaf {
 		case "f1":
@@ -1166,7 +1173,7 @@ func (a *alignFn) edgeRule(c *Ctx, r *Report) {
 	}
 	for _, key := range order {
 		label, classes, pos := groups[key].label, groups[key].classes, groups[key].pos
-		if label < 0 {
+		if label < 0 || !groups[key].nonZero {
 			continue
 		}
 		n++
